@@ -8,6 +8,7 @@ Nothing else may touch /repo while this runs.  Prints one line per change and a 
 change is no longer caught."""
 import json, os, subprocess, sys, time
 ROOT = os.path.dirname(os.path.dirname(os.path.abspath(__file__)))
+REPO = os.environ.get("LACE_REPO", "/repo")      # a snapshot of /repo when run from `vp run --with-repo`
 
 
 def sh(cmd, cwd=None, timeout=3600):
@@ -18,9 +19,9 @@ def sh(cmd, cwd=None, timeout=3600):
 
 def main():
     names = sys.argv[1:] or sorted(n for n in os.listdir(os.path.join(ROOT, "seeded")) if os.path.isfile(os.path.join(ROOT, "seeded", n, "meta.json")))
-    rc, o = sh("git status --porcelain", cwd="/repo")
+    rc, o = sh("git status --porcelain", cwd=REPO)
     if o.strip():
-        print("refusing: /repo has uncommitted changes")
+        print(f"refusing: {REPO} has uncommitted changes")
         return 2
     missed = []
     for name in names:
@@ -28,7 +29,7 @@ def main():
         meta = json.load(open(os.path.join(d, "meta.json")))
         pid = meta["breaks_property"]
         t0 = time.time()
-        rc, o = sh(f"git apply {d}/patch.diff", cwd="/repo")
+        rc, o = sh(f"git apply {d}/patch.diff", cwd=REPO)
         if rc != 0:
             print(f"{name}: patch does not apply any more ({o.strip()[:120]})")
             missed.append(name)
@@ -36,7 +37,7 @@ def main():
         try:
             rc, o = sh(f"./lv check {pid}", cwd=ROOT)
         finally:
-            sh("git checkout -- .", cwd="/repo")
+            sh("git checkout -- .", cwd=REPO)
         viol = [l for l in o.split("\n") if l.startswith("VIOLATION")]
         real = [l for l in viol if not l.rstrip().endswith("no-failing-input-found")]
         ok = rc == 1 and bool(real)
@@ -44,7 +45,7 @@ def main():
               f"{len(viol) - len(real)} without, {time.time() - t0:.0f}s)", flush=True)
         if not ok:
             missed.append(name)
-    rc, o = sh("git status --porcelain", cwd="/repo")
+    rc, o = sh("git status --porcelain", cwd=REPO)
     print(f"summary: {len(names) - len(missed)}/{len(names)} caught; missed: {missed}; /repo clean: {not o.strip()}")
     return 1 if missed else 0
 
